@@ -70,8 +70,10 @@ def analyse(pre):
     contractible = [p for p in interfaces
                     if len(p) == 2 and ncells.get(p[0], 0) < 3 and ncells.get(p[1], 0) < 3 and p[0] != p[1]]
     pl = [frozenset(p) for p in pre["e"].values()]
+    # outside the judged domain: two-vertex cells, parallel or self edges, and mesh edges that lie on
+    # no cell cycle (left by a dump whose faces were cut out): resampling rebuilds edges from cycles only
     degenerate = any(len(c) < 3 for c in pre["c"].values()) or len(set(pl)) != len(pl) \
-        or any(len(p) != 2 for p in pl)
+        or any(len(p) != 2 for p in pl) or any(p not in pair_cells for p in pl)
     return {"degenerate": degenerate, "deg": deg, "junc": junc, "ncells": ncells, "interfaces": interfaces,
             "cells_with_j": cells_with_j, "adj": adj, "shared": shared, "pair_cells": pair_cells,
             "contractible": contractible}
